@@ -43,6 +43,9 @@ pub struct Stream {
     pub malformed: Option<(usize, String)>,
     pub error_at: Option<usize>,
     pub read_fail_at: Option<u64>,
+    /// chromosomes that are started by the simulator's source although they have no value at all
+    /// ("a value stream that yields no sections"): (position among the chromosome runs, name)
+    pub empty_chroms: Vec<(usize, String)>,
 }
 
 pub fn wig_line(chrom: &str, it: &Item) -> String {
@@ -189,12 +192,23 @@ pub fn build_stream(case: &PipeCase) -> Stream {
             }
         }
     }
+    let empty_chroms: Vec<(usize, String)> = if empty {
+        vec![]
+    } else {
+        chroms
+            .iter()
+            .enumerate()
+            .filter(|(_, c)| c.items.is_empty())
+            .map(|(i, c)| (i, c.name.clone()))
+            .collect()
+    };
     Stream {
         sizes,
         records,
         malformed,
         error_at,
         read_fail_at,
+        empty_chroms,
     }
 }
 
@@ -379,7 +393,12 @@ macro_rules! run_sources {
                 }
             }
             Source::Sim { inflight } => {
-                let groups: Arc<Vec<(String, Vec<$V>)>> = Arc::new(group_runs(&stream.records, conv));
+                let mut groups_v: Vec<(String, Vec<$V>)> = group_runs(&stream.records, conv);
+                for (pos, name) in &stream.empty_chroms {
+                    let at = (*pos).min(groups_v.len());
+                    groups_v.insert(at, (name.clone(), vec![]));
+                }
+                let groups: Arc<Vec<(String, Vec<$V>)>> = Arc::new(groups_v);
                 // translate the flat error index into (chrom run, item)
                 let err = stream.error_at.map(|k| {
                     let mut rem = k;
